@@ -71,6 +71,12 @@ func (l Location) IsReverse() (bool, error) {
 	if err != nil {
 		return true, err
 	}
+	// the strand is what the location says: the segments of a join on the forward strand need not be
+	// in ascending order (e.g. across the origin of a circular genome), so the order of the positions
+	// alone does not tell
+	if !strings.Contains(l.Representation, "complement") {
+		return false, nil
+	}
 	if pos[0] > pos[len(pos)-1] {
 		return true, nil
 	}
